@@ -139,7 +139,8 @@ fn eval_level<F: Function<Trace = VmTrace>>(f: &F, vs: &[Var], inp: &Input, samp
     write!(text, " | o{tag}").unwrap();
     for s in samples {
         match point_eval(f, vs, s) {
-            Ok((o, _)) => { write!(text, " {}", fmt_bits(&o)).unwrap(); outs.push(o); }
+            // (-0.0 printed as 0: the sign of a zero produced by min / max differs between evaluators, see C02; exact bits are C01's business)
+            Ok((o, _)) => { write!(text, " {}", fmt_bits(&o.iter().map(|v| if *v == 0.0 { 0.0 } else { *v }).collect::<Vec<f32>>())).unwrap(); outs.push(o); }
             Err(_) => { text.push_str(" panic"); ok = false; outs.push(vec![]); }
         }
     }
@@ -358,7 +359,8 @@ pub fn run(seed: u64, count: usize, outdir: &str, jit: bool) -> std::io::Result<
                     writeln!(oracle, "FAIL case={ci} kind=value-changed level={li} {kindtag}").unwrap();
                 }
                 if !l.slice_outs.is_empty() && !base.slice_outs.is_empty() {
-                    let same = base.outs.iter().zip(&l.slice_outs).all(|(a, b)| fmt_bits(a) == fmt_bits(b));
+                    let z = |v: &Vec<f32>| fmt_bits(&v.iter().map(|x| if *x == 0.0 { 0.0 } else { *x }).collect::<Vec<f32>>());
+                    let same = base.outs.iter().zip(&l.slice_outs).all(|(a, b)| z(a) == z(b));
                     if !same {
                         fails += 1;
                         writeln!(oracle, "FAIL case={ci} kind=slice-value-changed level={li} {kindtag}").unwrap();
